@@ -32,6 +32,13 @@ def queries(tier):
              (["S(1)", "S(6)", "S(9)", "R(6)", "S(14)"], [1, 9, 14]),
              (["S(%d)" % k for k in (1, 9, 17, 25, 33, 2)], [1, 9, 17, 25, 33, 2]),      # crosses max_load -> grow to 16
              (["S(%d)" % k for k in (1, 9, 17, 25, 33, 2)] + ["R(1)", "R(9)", "R(17)", "R(25)", "R(33)"], [2])]  # shrink back
+    # tables filled exactly to the grow threshold, so that the FINAL (symbolic-key) operation is the one that resizes:
+    # capacity 8 grows at load 5 (keys >= 8 move to other slots in the 16-slot table), capacity 16 at load 10
+    extra += [(["S(%d)" % k for k in (9, 10, 11, 12, 13)], [9, 10, 11, 12, 13]),
+              (["S(%d)" % k for k in (1, 9, 2, 11)], [1, 9, 2, 11]),
+              (["S(%d)" % k for k in (24, 17, 10, 3, 28)], [24, 17, 10, 3, 28])]
+    if tier != "quick":
+        extra += [(["S(%d)" % k for k in range(17, 27)], list(range(17, 27)))]
     hists += extra
     seen = set()
     for h, live in hists:
